@@ -128,30 +128,39 @@ theorem SubSingle.refl (σ : Single) : SubSingle σ σ := fun _ _ h => h
 theorem SubSingle.trans {σ τ υ : Single} (h1 : SubSingle σ τ) (h2 : SubSingle τ υ) :
     SubSingle σ υ := fun k n h => h2 k n (h1 k n h)
 
-theorem eval_mono_agree (args : Args) (σ τ : Single) (h : SubSingle σ τ) :
-    ∀ e : Expr, e.eval args σ = .annErr ∨ e.eval args σ = e.eval args τ
+theorem evalCore_mono_agree (args : Args) (σ τ : Single) (h : SubSingle σ τ) :
+    ∀ e : Expr, e.evalCore args σ = .annErr ∨ e.evalCore args σ = e.evalCore args τ
   | .lit n => Or.inr rfl
   | .var x => by
-    simp only [Expr.eval]
+    simp only [Expr.evalCore]
     cases hx : σ.lookup (.plain x) with
     | none => left; rfl
     | some n => right; rw [h _ _ hx]
   | .hole x => Or.inr rfl
   | .neg a => by
-    simp only [Expr.eval]
-    exact bind1_agree _ _ _ (eval_mono_agree args σ τ h a)
+    simp only [Expr.evalCore]
+    exact bind1_agree _ _ _ (evalCore_mono_agree args σ τ h a)
   | .add a b => by
-    simp only [Expr.eval]
-    exact bind2_agree _ _ _ _ _ (eval_mono_agree args σ τ h a) (eval_mono_agree args σ τ h b)
+    simp only [Expr.evalCore]
+    exact bind2_agree _ _ _ _ _ (evalCore_mono_agree args σ τ h a) (evalCore_mono_agree args σ τ h b)
   | .sub a b => by
-    simp only [Expr.eval]
-    exact bind2_agree _ _ _ _ _ (eval_mono_agree args σ τ h a) (eval_mono_agree args σ τ h b)
+    simp only [Expr.evalCore]
+    exact bind2_agree _ _ _ _ _ (evalCore_mono_agree args σ τ h a) (evalCore_mono_agree args σ τ h b)
   | .mul a b => by
-    simp only [Expr.eval]
-    exact bind2_agree _ _ _ _ _ (eval_mono_agree args σ τ h a) (eval_mono_agree args σ τ h b)
+    simp only [Expr.evalCore]
+    exact bind2_agree _ _ _ _ _ (evalCore_mono_agree args σ τ h a) (evalCore_mono_agree args σ τ h b)
   | .fdiv a b => by
-    simp only [Expr.eval]
-    exact bind2_agree _ _ _ _ _ (eval_mono_agree args σ τ h a) (eval_mono_agree args σ τ h b)
+    simp only [Expr.evalCore]
+    exact bind2_agree _ _ _ _ _ (evalCore_mono_agree args σ τ h a) (evalCore_mono_agree args σ τ h b)
+
+theorem eval_mono_agree (args : Args) (σ τ : Single) (h : SubSingle σ τ) (e : Expr) :
+    e.eval args σ = .annErr ∨ e.eval args σ = e.eval args τ := by
+  unfold Expr.eval
+  cases holesPass args e.holes with
+  | ok _ => exact evalCore_mono_agree args σ τ h e
+  | fail => right; rfl
+  | annErr => left; rfl
+  | exc x => right; rfl
 
 theorem eval_mono (args : Args) (σ τ : Single) (h : SubSingle σ τ) (e : Expr) (v : Int)
     (hv : e.eval args σ = .ok v) : e.eval args τ = .ok v := by
